@@ -636,6 +636,8 @@ pub fn run(run: &Run) {
     // all pairs
     let nontrivial = std::sync::atomic::AtomicU64::new(0);
     (0..n).into_par_iter().for_each(|i| {
+        // one watchdog case per row of the comparison matrix (the per-comparison guards inside are then free)
+        let _w = crate::watch::enter_with(|| format!("comparing build #{i} with every other build"));
         let mut local_nt = 0u64;
         for j in (i + 1)..n {
             let (x, y) = (&all[i], &all[j]);
